@@ -10,8 +10,10 @@ def run(cmd, **kw):
     return subprocess.run(cmd, capture_output=True, text=True, **kw)
 
 def main(ids):
-    for pid in ids:
-        out = '/tmp/wt/%s/out' % pid
+    for wid in ids:
+        out = '/tmp/wt/%s/out' % wid
+        pid = 'C' + wid[1:]
+        wave2 = wid[0] == 'D'
         for letter in 'AB':
             diff = os.path.join(out, letter + '.diff'); demo = os.path.join(out, letter + '_demo.py')
             if not (os.path.exists(diff) and os.path.exists(demo)):
@@ -19,8 +21,9 @@ def main(ids):
             base = tempfile.mkdtemp(prefix='seedchk-', dir='/tmp'); dst = os.path.join(base, 'repo')
             try:
                 run(['rsync', '-a', '--exclude', '.git', '--exclude', '__pycache__', '/repo/', dst + '/'])
-                src = open(demo).read().replace("'/tmp/wt/%s'" % pid, "__import__('os').environ.get('VERIF_REPO', '/repo')") \
-                                       .replace('"/tmp/wt/%s"' % pid, "__import__('os').environ.get('VERIF_REPO', '/repo')")
+                src = open(demo).read().replace("'/tmp/wt/%s'" % wid, "__import__('os').environ.get('VERIF_REPO', '/repo')") \
+                                       .replace('"/tmp/wt/%s"' % wid, "__import__('os').environ.get('VERIF_REPO', '/repo')")
+                src = '\n'.join(l for l in src.splitlines() if not (l.startswith('assert') and '__file__' in l)) + '\n'
                 if '/tmp/wt/' in src:
                     print(pid, letter, 'demo still refers to /tmp/wt'); continue
                 dpath = os.path.join(base, 'demo.py'); open(dpath, 'w').write(src)
@@ -35,7 +38,7 @@ def main(ids):
                 print(pid, letter, 'clean-demo rc=%d tests=%r mutated-demo rc=%d -> %s' % (r0.returncode, tail, r1.returncode, 'KEEP' if ok else 'REJECT'))
                 if not ok:
                     continue
-                d = os.path.join(VERIF, 'seeded', '%s-%s' % (pid, letter)); os.makedirs(d, exist_ok=True)
+                d = os.path.join(VERIF, 'seeded', '%s-%s' % (pid, {'A': 'C', 'B': 'D'}[letter] if wave2 else letter)); os.makedirs(d, exist_ok=True)
                 shutil.copy(diff, os.path.join(d, 'patch.diff')); open(os.path.join(d, 'demo.py'), 'w').write(src)
                 notes = open(os.path.join(out, 'NOTES.md')).read() if os.path.exists(os.path.join(out, 'NOTES.md')) else ''
                 open(os.path.join(d, 'NOTES.md'), 'w').write(notes)
